@@ -6,6 +6,13 @@ import JxlModel.Model.Modular.Transform
 The entropy layer is abstracted: the decoder consumes a list of already hybrid-integer-decoded
 values (`tokens`); which distribution each one was read with is recorded by the encoder
 (`encodeChannel` returns `(ctx, token)` pairs) and is the business of property C04.
+
+Samples of a channel are produced / consumed in raster order as a list; the position `(x, y)` is
+the one carried by the predictor state, exactly as in the Rust loops.
+
+`leafOf` abstracts how a leaf is found from the property vector:
+* decoder model (Impl): `getLeaf (flatten …)` — the flattened tree the Rust walks;
+* reference encoder (Spec): `Tree.evalFor` — the tree itself.
 -/
 namespace Jxl.Modular
 
@@ -23,47 +30,74 @@ def flatMaxPrev (nodes : Array FlatNode) : Nat :=
     | .table p _ _ => max m (f p)
     | .leaf _ => m) 0
 
-structure DecState where
-  ps : PState
-  chan : Chan
-  tokens : List Nat
-  deriving Inhabited
-
 /-- property lookup as `Properties::get` does it -/
 def propsFn (cached : List Int) (prev : List Chan) (x y : Nat) (k : Nat) : Int :=
   if k < 16 then cached.getD k 0 else propExtra prev x y (k - 16)
 
-/-- decode one sample at the state's `(x, y)`; `none` = tokens exhausted (EOF) or broken tree -/
-def decodeSample (sb : SBits) (flat : Array FlatNode) (prev : List Chan) (st : DecState) :
-    Option DecState :=
-  let scp := st.ps.scPredict
-  let cached := st.ps.props scp
-  let x := st.ps.x
-  let y := st.ps.y
-  match getLeaf flat (propsFn cached prev x y), st.tokens with
-  | some leaf, tok :: rest =>
-    let diff := sMulAdd sb (sUnpack sb tok) leaf.mul leaf.offset
-    let pred := predictImpl leaf.pred st.ps scp
-    let v := sAdd sb diff (sFromI32 sb pred)
-    some { ps := st.ps.record scp v, chan := st.chan.set x y v, tokens := rest }
-  | _, _ => none
+/-- value reconstructed from a token at a leaf with prediction `pred` (`decode_one`) -/
+def sampleOf (sb : SBits) (leaf : Leaf) (pred : Int) (tok : Nat) : Int :=
+  sAdd sb (sMulAdd sb (sUnpack sb tok) leaf.mul leaf.offset) (sFromI32 sb pred)
 
-def decodeSamples (sb : SBits) (flat : Array FlatNode) (prev : List Chan) :
-    Nat → DecState → Option DecState
-  | 0, st => some st
-  | n + 1, st =>
-    match decodeSample sb flat prev st with
+abbrev LeafOf := (Nat → Int) → Option Leaf
+
+/-- decode `n` samples; returns the samples (in order), the unread tokens and the final state.
+`none` = tokens exhausted (EOF) or no leaf. -/
+def decodeSamples (sb : SBits) (leafOf : LeafOf) (prev : List Chan) :
+    Nat → PState → List Nat → Option (List Int × List Nat × PState)
+  | 0, ps, toks => some ([], toks, ps)
+  | n + 1, ps, toks =>
+    let scp := ps.scPredict
+    match leafOf (propsFn (ps.props scp) prev ps.x ps.y), toks with
+    | some leaf, tok :: rest =>
+      let v := sampleOf sb leaf (predictImpl leaf.pred ps scp) tok
+      match decodeSamples sb leafOf prev n (ps.record scp v) rest with
+      | some (vs, toks', ps') => some (v :: vs, toks', ps')
+      | none => none
+    | _, _ => none
+
+/-- choose the token that makes the decoder reproduce `v`; `none` if the leaf cannot express it -/
+def encodeResidual (sb : SBits) (leaf : Leaf) (pred v : Int) : Option Nat :=
+  let r := wrap sb (v - wrap sb pred - leaf.offset)
+  if leaf.mul == 0 then none
+  else if r % (leaf.mul : Int) == 0 then
+    let tok := packSigned (r / (leaf.mul : Int))
+    if tok < 2 ^ 32 ∧ sampleOf sb leaf pred tok == v then some tok else none
+  else none
+
+/-- encode samples (raster order) into `(ctx, token)` pairs -/
+def encodeSamples (sb : SBits) (leafOf : LeafOf) (prev : List Chan) :
+    List Int → PState → Option (List (Nat × Nat))
+  | [], _ => some []
+  | v :: vs, ps =>
+    let scp := ps.scPredict
+    match leafOf (propsFn (ps.props scp) prev ps.x ps.y) with
     | none => none
-    | some st' => decodeSamples sb flat prev n st'
+    | some leaf =>
+      match encodeResidual sb leaf (predictImpl leaf.pred ps scp) v with
+      | none => none
+      | some tok =>
+        match encodeSamples sb leafOf prev vs (ps.record scp v) with
+        | none => none
+        | some out => some ((leaf.ctx, tok) :: out)
 
-/-- decode one channel of a sub-image -/
+/-- how the decoder model finds leaves: flattened tree (Impl) -/
+def implLeafOf (tree : Tree) (chanIdx stream nPrev : Nat) : LeafOf :=
+  let flat := flatten chanIdx stream nPrev tree
+  fun props => getLeaf flat props
+
+/-- how the reference encoder finds leaves: the tree itself (Spec) -/
+def specLeafOf (tree : Tree) (chanIdx stream nPrev : Nat) : LeafOf :=
+  fun props => some (tree.evalFor chanIdx stream nPrev props)
+
+/-- decode one channel of a sub-image (decoder model) -/
 def decodeChannel (sb : SBits) (tree : Tree) (wp : Wp) (chanIdx stream : Nat)
     (info : ChanInfo) (prevSame : List Chan) (tokens : List Nat) : Option (Chan × List Nat) :=
   let flat := flatten chanIdx stream prevSame.length tree
   let wpo := if flatUsesSC flat then some wp else none
   let prev := prevSame.take (flatMaxPrev flat)
-  let st : DecState := { ps := PState.reset info.w wpo, chan := Chan.zero info.w info.h, tokens }
-  (decodeSamples sb flat prev (info.w * info.h) st).map fun st => (st.chan, st.tokens)
+  match decodeSamples sb (fun props => getLeaf flat props) prev (info.w * info.h) (PState.reset info.w wpo) tokens with
+  | none => none
+  | some (vs, toks, _) => some ({ w := info.w, h := info.h, data := vs.toArray }, toks)
 
 /-- `decode_inner`: all channels of a sub-image in order. `done` = (info, decoded) so far. -/
 def decodeChannels (sb : SBits) (tree : Tree) (wp : Wp) (stream : Nat) :
@@ -80,57 +114,12 @@ def decodeChannels (sb : SBits) (tree : Tree) (wp : Wp) (stream : Nat) :
       | some (c, tokens') =>
         decodeChannels sb tree wp stream rest (idx + 1) (done ++ [(info, c)]) tokens'
 
-/-! ## Encoder side (token level) -/
-
-/-- choose the token that makes the decoder reproduce `v`; `none` if the leaf cannot express it -/
-def encodeResidual (sb : SBits) (leaf : Leaf) (pred v : Int) : Option Nat :=
-  let r := wrap sb (v - wrap sb pred - leaf.offset)
-  let q : Option Int :=
-    if leaf.mul == 0 then none
-    else if r % (leaf.mul : Int) == 0 then some (r / (leaf.mul : Int))
-    else none
-  match q with
-  | none => none
-  | some q =>
-    let tok := packSigned q
-    if tok < 2 ^ 32 ∧ sAdd sb (sMulAdd sb (sUnpack sb tok) leaf.mul leaf.offset) (sFromI32 sb pred) == v
-    then some tok else none
-
-structure EncState where
-  ps : PState
-  out : List (Nat × Nat)   -- (ctx, token), reversed
-  deriving Inhabited
-
-def encodeSample (sb : SBits) (flat : Array FlatNode) (prev : List Chan) (c : Chan)
-    (st : EncState) : Option EncState :=
-  let scp := st.ps.scPredict
-  let cached := st.ps.props scp
-  let x := st.ps.x
-  let y := st.ps.y
-  match getLeaf flat (propsFn cached prev x y) with
-  | none => none
-  | some leaf =>
-    let v := c.get x y
-    let pred := predictImpl leaf.pred st.ps scp
-    match encodeResidual sb leaf pred v with
-    | none => none
-    | some tok => some { ps := st.ps.record scp v, out := (leaf.ctx, tok) :: st.out }
-
-def encodeSamples (sb : SBits) (flat : Array FlatNode) (prev : List Chan) (c : Chan) :
-    Nat → EncState → Option EncState
-  | 0, st => some st
-  | n + 1, st =>
-    match encodeSample sb flat prev c st with
-    | none => none
-    | some st' => encodeSamples sb flat prev c n st'
-
+/-- reference encoder for one channel (Spec leaf selection) -/
 def encodeChannel (sb : SBits) (tree : Tree) (wp : Wp) (chanIdx stream : Nat)
     (c : Chan) (prevSame : List Chan) : Option (List (Nat × Nat)) :=
-  let flat := flatten chanIdx stream prevSame.length tree
-  let wpo := if flatUsesSC flat then some wp else none
-  let prev := prevSame.take (flatMaxPrev flat)
-  let st : EncState := { ps := PState.reset c.w wpo, out := [] }
-  (encodeSamples sb flat prev c (c.w * c.h) st).map fun st => st.out.reverse
+  let wpo := if tree.usesProp 15 || tree.usesPred 6 then some wp else none
+  encodeSamples sb (specLeafOf tree chanIdx stream prevSame.length) prevSame c.data.toList
+    (PState.reset c.w wpo)
 
 def encodeChannels (sb : SBits) (tree : Tree) (wp : Wp) (stream : Nat) :
     List (ChanInfo × Chan) → Nat → List (ChanInfo × Chan) → List (Nat × Nat) →
